@@ -5,6 +5,7 @@ import (
 	"go/ast"
 	"go/token"
 	"go/types"
+	"strings"
 
 	"gtsverif/core"
 )
@@ -148,5 +149,192 @@ func TrimOne(p *core.Prog, r *core.Report) {
 		r.Bad("TRIM-ONE", "seqio.FlatFileSplit", p.Pos(fd.Pos()), fmt.Sprintf("the terminating period is stripped %d times, the writer appends exactly one", good))
 	default:
 		r.Ok("TRIM-ONE", "seqio.FlatFileSplit", p.Pos(fd.Pos()), "exactly one trailing period removed")
+	}
+}
+
+// singleLine: labels whose value the reader takes from one line only
+// (reviewed): their writer may emit the value as it is.
+var singleLine = map[string]string{
+	"ACCESSION": "one line (the REGION suffix is appended on the same line)",
+	"VERSION":   "one line",
+	"PUBMED":    "one line",
+	"LOCUS":     "fixed-column line",
+}
+
+// PrefixAll decides PREFIX-ALL: every free-text field value the GenBank writer
+// emits behind a label goes through AddPrefix(value, indent), so that each
+// continuation line of a multi-line value starts at the field depth the reader
+// demands.
+func PrefixAll(p *core.Prog, r *core.Report) {
+	r.Rule("PREFIX-ALL", "in seqio.GenBank.String every non-constant operand written behind a field label (`\"LABEL   \" + value + ...`) is AddPrefix(value, indent) (directly, or a variable last assigned that), except the reviewed single-line fields ACCESSION, VERSION, PUBMED: a continuation line written at column 1 ends the field for the reader", 10)
+	info := p.Info(core.PkgSeqio)
+	fd := p.FuncDecl(core.PkgSeqio, "GenBank.String")
+	if fd == nil || fd.Body == nil {
+		r.Und("PREFIX-ALL", "seqio.GenBank.String|anchor", "-", "anchor-unresolved")
+		return
+	}
+	r.Fn("seqio.GenBank.String")
+	asg := core.Assigns(info, fd.Body)
+	var flatten func(e ast.Expr, out *[]ast.Expr)
+	flatten = func(e ast.Expr, out *[]ast.Expr) {
+		if be, ok := ast.Unparen(e).(*ast.BinaryExpr); ok && be.Op == token.ADD {
+			flatten(be.X, out)
+			flatten(be.Y, out)
+			return
+		}
+		*out = append(*out, e)
+	}
+	isPrefixed := func(e ast.Expr) bool {
+		o := ast.Unparen(core.OriginBefore(info, asg, e))
+		c, ok := o.(*ast.CallExpr)
+		return ok && core.IsCallTo(info, c, core.PkgSeqio+".AddPrefix") && len(c.Args) == 2
+	}
+	seen := map[string]int{}
+	for _, c := range core.Calls(fd.Body) {
+		sel, ok := c.Fun.(*ast.SelectorExpr)
+		if !ok || sel.Sel.Name != "WriteString" || len(c.Args) != 1 {
+			continue
+		}
+		var ops []ast.Expr
+		flatten(c.Args[0], &ops)
+		if len(ops) < 2 {
+			continue
+		}
+		head, ok := core.ConstString(info, ops[0])
+		if !ok {
+			continue
+		}
+		_, name, _, rest := label(head)
+		if name == "" || rest != "" {
+			continue
+		}
+		seen[name]++
+		key := "seqio.GenBank.String|" + name
+		if seen[name] > 1 {
+			key += fmt.Sprintf("#%d", seen[name])
+		}
+		var bad ast.Expr
+		for _, o := range ops[1:] {
+			if _, isConst := core.ConstString(info, o); isConst {
+				continue
+			}
+			if !isPrefixed(o) {
+				bad = o
+			}
+		}
+		switch {
+		case bad == nil:
+			r.Ok("PREFIX-ALL", key, p.Pos(c.Pos()), "value written through AddPrefix(_, indent)")
+		case singleLine[name] != "":
+			r.Ok("PREFIX-ALL", key, p.Pos(c.Pos()), "reviewed single-line field: "+singleLine[name])
+		default:
+			r.Bad("PREFIX-ALL", key, p.Pos(bad.Pos()), "`"+types.ExprString(bad)+"` is written behind the "+name+" label without AddPrefix(_, indent): the second line of a multi-line value starts in column 1, the reader ends the field there and skips or misreads what follows")
+		}
+	}
+}
+
+// DBLinkAgree decides DBLINK-AGREE: the reader accepts every `key: value` line
+// the writer can emit, the empty value included, and cuts it at the writer's
+// separator.
+func DBLinkAgree(p *core.Prog, r *core.Report) {
+	r.Rule("DBLINK-AGREE", "the DBLINK writer emits `%s: %s` (a separator of K bytes starting with ':'); the reader finds ':' at i, takes the value from s[i+K:] and rejects the line exactly when len(s) < i+K, so the empty value the writer can produce is read back", 1)
+	info := p.Info(core.PkgSeqio)
+	w := p.FuncDecl(core.PkgSeqio, "GenBank.String")
+	rd := p.FuncDecl(core.PkgSeqio, "genbankDBLinkPairParser")
+	if w == nil || rd == nil || w.Body == nil || rd.Body == nil {
+		r.Und("DBLINK-AGREE", "seqio.DBLINK|anchor", "-", "anchor-unresolved")
+		return
+	}
+	r.Fn("seqio.genbankDBLinkPairParser")
+	// writer separator: the Sprintf format with two %s whose operands are .Key/.Value
+	sep := ""
+	for _, c := range core.Calls(w.Body) {
+		if !core.IsCallTo(info, c, "fmt.Sprintf") || len(c.Args) != 3 {
+			continue
+		}
+		f, ok := core.ConstString(info, c.Args[0])
+		k, okk := ast.Unparen(c.Args[1]).(*ast.SelectorExpr)
+		v, okv := ast.Unparen(c.Args[2]).(*ast.SelectorExpr)
+		if !ok || !okk || !okv || k.Sel.Name != "Key" || v.Sel.Name != "Value" {
+			continue
+		}
+		if i := strings.Index(f, "%s"); i == 0 {
+			if j := strings.Index(f[2:], "%s"); j >= 0 {
+				sep = f[2 : 2+j]
+			}
+		}
+	}
+	if sep == "" || sep[0] != ':' {
+		r.Und("DBLINK-AGREE", "seqio.DBLINK", p.Pos(w.Pos()), "cannot find the writer's `key<sep>value` format")
+		return
+	}
+	K := int64(len(sep))
+	// reader: s[i+K:] and the guard
+	var cut int64 = -1
+	var iObj types.Object
+	var sObj types.Object
+	ast.Inspect(rd.Body, func(n ast.Node) bool {
+		se, ok := n.(*ast.SliceExpr)
+		if !ok || se.Low == nil || se.High != nil {
+			return true
+		}
+		be, ok := ast.Unparen(se.Low).(*ast.BinaryExpr)
+		if !ok || be.Op != token.ADD {
+			return true
+		}
+		if c, ok := core.ConstInt(info, be.Y); ok {
+			cut, iObj, sObj = c, core.ObjOf(info, be.X), core.ObjOf(info, se.X)
+		}
+		return true
+	})
+	if cut < 0 || iObj == nil {
+		r.Und("DBLINK-AGREE", "seqio.DBLINK", p.Pos(rd.Pos()), "cannot find the reader's value slice s[i+K:]")
+		return
+	}
+	// guard: if len(s) < i+T { return error }
+	var thr int64 = -1
+	var guardPos token.Pos
+	ast.Inspect(rd.Body, func(n ast.Node) bool {
+		is, ok := n.(*ast.IfStmt)
+		if !ok || len(is.Body.List) == 0 {
+			return true
+		}
+		if _, isRet := is.Body.List[len(is.Body.List)-1].(*ast.ReturnStmt); !isRet {
+			return true
+		}
+		be, ok := ast.Unparen(is.Cond).(*ast.BinaryExpr)
+		if !ok {
+			return true
+		}
+		lc, ok := ast.Unparen(be.X).(*ast.CallExpr)
+		if !ok || !core.IsBuiltin(info, lc, "len") || core.ObjOf(info, lc.Args[0]) != sObj {
+			return true
+		}
+		sum, ok := ast.Unparen(be.Y).(*ast.BinaryExpr)
+		if !ok || sum.Op != token.ADD || core.ObjOf(info, sum.X) != iObj {
+			return true
+		}
+		c, ok := core.ConstInt(info, sum.Y)
+		if !ok {
+			return true
+		}
+		switch be.Op {
+		case token.LSS:
+			thr = c
+		case token.LEQ:
+			thr = c + 1
+		}
+		guardPos = is.Pos()
+		return true
+	})
+	switch {
+	case cut != K:
+		r.Bad("DBLINK-AGREE", "seqio.DBLINK", p.Pos(rd.Pos()), fmt.Sprintf("the writer separates key and value by %q (%d bytes) but the reader skips %d bytes after the colon", sep, K, cut))
+	case thr < 0:
+		r.Bad("DBLINK-AGREE", "seqio.DBLINK", p.Pos(rd.Pos()), "the reader slices s[i+K:] without a length guard")
+	case thr != K:
+		r.Bad("DBLINK-AGREE", "seqio.DBLINK", p.Pos(guardPos), fmt.Sprintf("the reader rejects lines shorter than i+%d bytes; the writer's shortest line (empty value) has exactly i+%d: a record with an empty DBLINK value is written but not read back", thr, K))
+	default:
+		r.Ok("DBLINK-AGREE", "seqio.DBLINK", p.Pos(guardPos), fmt.Sprintf("separator %q, value at s[i+%d:], rejected only when len(s) < i+%d", sep, K, K))
 	}
 }
